@@ -357,12 +357,14 @@ class BaseAccumulator:
         raise NotImplementedError()
 
     def intercept(self, element, varname, category, tentative):
-        cap = Capture(element)
-        self.captures[element.capture] = cap
-        cap.names.append(varname)
-        cap.set(varname, tentative)
+        if tentative is not ABSENT:
+            # A variable that is only declared has no tentative value: the
+            # internal ABSENT marker is never shown to the override function
+            cap = Capture(element)
+            self.captures[element.capture] = cap
+            cap.set(varname, tentative)
         rval = self._call_with_snapshot(element, self._intercept)
-        del self.captures[element.capture]
+        self.captures.pop(element.capture, None)
         return rval
 
     def trigger(self, element):
